@@ -41,7 +41,7 @@ Methods(cfg) ==
 HasArg(m) == m \in {"call", "c1", "c2", "c3"}
 Cfg(k, n, n2, mode, d) == [kind |-> k, n |-> n, n2 |-> n2, mode |-> mode, d |-> d, w |-> 2]
 Configs ==
-  {Cfg("connect", 1, 1, "-", 0), Cfg("crossbar", 1, 2, "-", 0), Cfg("crossbar", 2, 1, "-", 0), Cfg("crossbar", 2, 2, "-", 0),
+  {Cfg("connect", 1, 1, "-", 0), Cfg("connect", 1, 1, "val", 0), Cfg("crossbar", 1, 2, "-", 0), Cfg("crossbar", 2, 1, "-", 0), Cfg("crossbar", 2, 2, "-", 0),
    Cfg("map", 1, 0, "fun", 0), Cfg("map", 1, 0, "meth", 0),
    Cfg("filter", 1, 0, "if", 0), Cfg("filter", 1, 0, "if", 3), Cfg("filter", 1, 0, "cond", 0), Cfg("filter", 1, 0, "cond", 3),
    Cfg("filter", 1, 0, "meth", 3),
@@ -53,7 +53,8 @@ NoArg(cfg) == cfg.kind = "collector" \/ (cfg.kind = "nonexcl" /\ cfg.mode = "noa
 ArgDom(cfg, m) == IF NoArg(cfg) THEN {0} ELSE {1, 2}
 Bits(n) == [1..n -> {0, 1}]
 InDom(cfg, st) ==
-  CASE cfg.kind = "connect" -> [r1 : {0, 1}, r2 : {0, 1}, v1 : {1, 2}, v2 : {2, 3}]
+  CASE cfg.kind = "connect" /\ cfg.mode = "val" -> [r1 : {0, 1}, r2 : {0, 1}, v1 : {0, 1, 2}, v2 : {0, 2, 3}]
+    [] cfg.kind = "connect" -> [r1 : {0, 1}, r2 : {0, 1}, v1 : {1, 2}, v2 : {2, 3}]
     [] cfg.kind = "crossbar" -> [rdy1 : Bits(cfg.n), val1 : [1..cfg.n -> {1, 2}], rdy2 : Bits(cfg.n2), val2 : [1..cfg.n2 -> {2, 3}]]
     [] cfg.kind = "map" /\ cfg.mode = "meth" ->
          [trdy : {0, 1}, tval : {1, 2}, irdy : {0, 1}, ival : {2, 3}, ordy : {0, 1}, oval : {1, 3}]
@@ -115,11 +116,14 @@ XObs(cfg, inp, M) ==
    ran2 |-> [j \in 1..cfg.n2 |-> B(\E p \in M : p[2] = j)],
    arg2 |-> [j \in 1..cfg.n2 |-> IF \E p \in M : p[2] = j THEN inp.val1[(CHOOSE p \in M : p[2] = j)[1]] ELSE 0]]
 
+\* mode "val": both connected methods are defined with validate_arguments and refuse the all-zero argument;
+\* method1 receives v2, method2 receives v1
+ConnAccept(cfg, inp) == cfg.mode # "val" \/ (inp.v1 # 0 /\ inp.v2 # 0)
 ObsSet(cfg, st, calls, inp) ==
   LET c == Ran(calls, "call")
       a == IF c THEN calls["call"] ELSE 0 IN
   CASE cfg.kind = "connect" ->
-         LET both == inp.r1 = 1 /\ inp.r2 = 1 IN
+         LET both == inp.r1 = 1 /\ inp.r2 = 1 /\ ConnAccept(cfg, inp) IN
          {[ran1 |-> B(both), arg1 |-> IF both THEN inp.v2 ELSE 0, ran2 |-> B(both), arg2 |-> IF both THEN inp.v1 ELSE 0]}
     [] cfg.kind = "crossbar" -> {XObs(cfg, inp, M) : M \in Matchings(cfg, inp)}
     [] cfg.kind = "map" /\ cfg.mode = "fun" -> {[tran |-> B(c), targ |-> IF c THEN Fi(cfg, a) ELSE 0]}
@@ -168,7 +172,8 @@ StepProp(cfg, st, g, req, calls, inp, res, obs, st2) ==
       a == IF c THEN calls["call"] ELSE 0 IN
   CASE cfg.kind = "connect" ->
          \* data is transferred between the two methods exactly when both can run
-         /\ obs.ran1 = B(inp.r1 = 1 /\ inp.r2 = 1) /\ obs.ran2 = obs.ran1
+         \* ("can run" includes that each method accepts the value the other one hands over)
+         /\ obs.ran1 = B(inp.r1 = 1 /\ inp.r2 = 1 /\ ConnAccept(cfg, inp)) /\ obs.ran2 = obs.ran1
          /\ obs.ran1 = 1 => (obs.arg1 = inp.v2 /\ obs.arg2 = inp.v1)
     [] cfg.kind = "crossbar" ->
          LET R1 == {i \in 1..cfg.n : obs.ran1[i] = 1}  R2 == {j \in 1..cfg.n2 : obs.ran2[j] = 1} IN
